@@ -99,7 +99,12 @@ func (d *rdb) inspectImage(dir string, probes []string) {
 // reportTables writes "table <hex> <rows...>" for every table (output lines, not ops).
 func (d *rdb) reportTables() {
 	for _, t := range d.tables {
-		rows, _, err := d.rs.Fetch(t)
+		var rows []*storage.Row
+		var err error
+		if pm := hx.Catch(func() { rows, _, err = d.rs.Fetch(t) }); pm != "" {
+			d.out(fmt.Sprintf("table %s panic", hxs(t)))
+			continue
+		}
 		if err != nil {
 			d.out(fmt.Sprintf("table %s err %s", hxs(t), dbErrKind(err)))
 			continue
